@@ -34,7 +34,7 @@ def render(v, objs, fixmsg):
 def run():
     ck = Check("C13")
     thorough = ck.tier == "thorough"
-    res = run_tlc("MC_C13", defines={"MaxSteps": "3" if thorough else "2"}, timeout_s=1700)
+    res = run_tlc("MC_C13", defines={"MaxSteps": "4" if thorough else "2"}, timeout_s=1700)
     if res.violation:
         raise pvlib.Broken("PanEither property violated in the model: " + res.violation)
     ck.add_tlc(res, "MC_C13")
@@ -122,7 +122,7 @@ def run():
     ck.cov["distinct_nontrivial"] = nontrivial
     ck.cov["traces_validated_against_impl"] = 2 * len(cases)
     ck.cov["exhaustive"] = True
-    ck.cov["rule"] = ("every chain of <= MaxSteps (2 quick, 3 thorough) steps over {method returning a value / nil / raising Err, ZeroDivisionErr, NameErr; method "
+    ck.cov["rule"] = ("every chain of <= MaxSteps (2 quick, 4 thorough) steps over {method returning a value / nil / raising Err, ZeroDivisionErr, NameErr; method "
                       "with positional+keyword arguments (two keyword values and the default); method returning an Either (holding a value / an error); non-callable property; literal step returning a value / raising / returning a caught error object}; "
                       "per chain: plain run, wrapped run, calls made, and 10 accessor forms (val err A or val? err? catch(match/no match) ignore abandon); "
                       "non-trivial = chains with a failure")
